@@ -130,8 +130,14 @@ pub fn check_behaviour(cfg: &Config, verif: &Path, target: &Path, frames_file: &
     }
     let text = String::from_utf8_lossy(&out.stdout);
     let lines: Vec<&str> = text.lines().collect();
-    if lines.len() != expected.len() {
-        return Err((format!("c19:driver-output:{}", cfg.name), format!("driver printed {} lines for {} frames", lines.len(), expected.len())));
+    if lines.len() != expected.len() + 2 {
+        return Err((format!("c19:driver-output:{}", cfg.name), format!("driver printed {} lines for {} frames (+2 stream verdicts)", lines.len(), expected.len())));
+    }
+    // the same frames through this build's stream API (iterator over the concatenation, caller loop with small chunks)
+    for v in &lines[expected.len()..] {
+        if !v.contains(" same ") {
+            return Err((format!("c19:stream-behaviour:{}", cfg.name), format!("build with [{}]: {}", cfg.features.join(","), v.chars().take(400).collect::<String>())));
+        }
     }
     let own: Vec<u16> = cfg.features.iter().filter_map(|f| f.strip_prefix("msg").and_then(|n| n.parse().ok())).collect();
     let all = cfg.features.iter().any(|f| f == "all_msgs");
@@ -168,7 +174,7 @@ pub fn run(ctx: &Ctx, replay: Option<&J>) -> CheckResult {
     let rule = "configurations enumerated: every msgNNNN feature of /repo/Cargo.toml alone, the empty selection, all_msgs without std, all_msgs+serde without std, and every \
         single feature together with serde; each is built with `cargo check --lib --no-default-features` (the crate is then #![no_std]) — all of them in both tiers (exhaustive); for each, the resolved feature graph (`cargo tree -e features`) must not switch on `std`/`alloc` of any target dependency. Behavioural half: a \
         driver linked against the single-feature build decodes a frame file produced by the full-feature harness (golden + generated + hostile frames of all types with the full build's Debug \
-        rendering): frames of its own type must render identically, every other number must be MsgNotSupported{n}; in both tiers for every single-feature configuration, the empty one and all_msgs (thorough adds the serde variants). non-trivial = configuration that compiles and decodes >=1 typed frame; distinct = configuration"
+        rendering): frames of its own type must render identically, every other number must be MsgNotSupported{n}, and the same frames concatenated and read through that build's MsgFrameIter and through the chunked caller loop must give the same renderings in the same order; in both tiers for every single-feature configuration, the empty one and all_msgs (thorough adds the serde variants). non-trivial = configuration that compiles and decodes >=1 typed frame; distinct = configuration"
         .to_string();
     let assumptions = vec![
         "no bare-metal target is installed: 'without the standard library' is checked as #![no_std] compilation for the host triple".to_string(),
